@@ -397,6 +397,18 @@ def bounded(b, tier, seed):
         n += 1
         for m in check_line(line):
             fails.setdefault(m.split(" of ")[0], {"witness": {"line": line}, "detail": f"{line!r}: {m}"})
+    # all-ASCII lines (the fast path): white space at every position around the first, second and third fold point, and random ASCII lines
+    for pos in list(range(66, 82)) + list(range(140, 158)) + list(range(214, 232)):
+        for ws in (" ", "\t", "  ", " \t ", "\r"):
+            line = "N" * pos + ws + "z" * 90
+            n += 1
+            for m in check_line(line):
+                fails.setdefault("ascii" + m.split(" of ")[0], {"witness": {"line": line}, "detail": f"{line!r}: {m}"})
+    for _ in range(200 if tier == "quick" else 3000):
+        line = "".join(rnd.choice("ab  \t:;=,") for _ in range(rnd.randint(70, 400)))
+        n += 1
+        for m in check_line(line):
+            fails.setdefault("ascii" + m.split(" of ")[0], {"witness": {"line": line}, "detail": f"{line!r}: {m}"})
     # few characters, many octets (a length test in characters is not a length test in octets)
     for nch in range(15, 80):
         for ch in ("\u00e9", "\u20ac", "\u4f1a", "\U0001F600"):
